@@ -30,6 +30,9 @@ def val : Num → Option Rat
   | .rat n d => some ((n : Rat) / (d : Rat))
   | .real _ => none
 
+/-- Value in ℚ with the default 0 for an inexact number (only used on exact numbers). -/
+def valD (x : Num) : Rat := x.val.getD 0
+
 /-- Conversion of an operand to binary32, as done by `upcast_oprands`. -/
 def toReal : Num → Float32
   | .int i => Float32.ofInt i
@@ -77,6 +80,12 @@ def den : Num → Int
   | .int _ => 1
   | .rat _ d => d
   | .real _ => 1
+
+instance : DecidablePred WF := fun x => by cases x <;> unfold WF <;> infer_instance
+instance : DecidablePred DenPos := fun x => by cases x <;> unfold DenPos <;> infer_instance
+instance : DecidablePred PosDen := fun x => by cases x <;> unfold PosDen <;> infer_instance
+instance (B : Int) : DecidablePred (Below B) := fun x => by
+  cases x <;> unfold Below <;> infer_instance
 
 /-- Every adjacent pair of the list satisfies `op`. -/
 def Adjacent (op : Num → Num → Bool) : List Num → Prop
